@@ -178,6 +178,10 @@ func (x *Ctx) dumpStructDrop(p interface{}, drop map[string]bool) interface{} {
 			}
 			if drop[a.Path] || a.Excluded {
 				delete(out, k)
+				// the nil-ness of the embeds on the way is coupled to the dropped field
+				for i := range a.Access {
+					delete(out, "embed:"+chainKey(a.Access[:i+1]))
+				}
 				continue
 			}
 			if a.Msg == nil {
